@@ -17,6 +17,9 @@ CONSTANTS
   MaxMgrs = 0
   MaxPosts = 0
   EMIT = FALSE
+  PROBE = FALSE
+  ACKinds = {}
+  RDecs = {TRUE, FALSE}
   RTerms = 0
   RCoef = 0
   RBound = 0
